@@ -81,6 +81,8 @@ def work(item):
     ref = ref_metanet.Ref(topo)
     D = ref_metanet.admissible_domain(topo)
     prover = discharge.Prover(timeout_ms=timeout_ms, seed=seed)
+    if timeout_ms > 20000 and topo.name.startswith("k"):
+        netcheck.start_recording()  # thorough tier, family K: keep the z3-unsat queries for the cvc5 cross-check
     encs = []
     try:
         if "numpy" in engines:
@@ -109,6 +111,9 @@ def work(item):
             continue
         compare(topo, enc, ref, D, prover, rng, style, out, numeric)
     out["stats"] = prover.stats.asdict()
+    rec = discharge.RECORD or []
+    discharge.RECORD = None
+    out["recorded_smt2"] = rec[::max(1, len(rec) // 3)][:3]
     return out
 
 
@@ -176,7 +181,10 @@ def main():
         stats.solver_ms += st.get("solver_s", 0) * 1000
         stats.cong_queries += st.get("congruence_queries", 0)
         stats.cong_merged += st.get("congruence_merges", 0)
+    cvc5_stats, cvc5_problems = netcheck.cvc5_crosscheck(results, 48, args.serial) if args.thorough else ({"queries": 0, "note": "thorough tier only"}, [])
+    inc += cvc5_problems
     coverage = {
+        "cvc5_agreement": cvc5_stats,
         "states": tot["n_queries"],
         "transitions": tot["encodings"],
         "traces_validated_against_impl": tot["encodings"],
